@@ -602,7 +602,7 @@ class Engine:
                 names, ops = None, [self.operand(o, fr) for o in rv[2]]
             if path.startswith('{closure@'):
                 span = path[len('{closure@'):-1]
-                if names is not None: ops = ops + self.elided_captures(span, len(ops), fr)
+                if names is not None: ops = ops + self.elided_captures(span, len(ops), fr, where)
                 return ClosureV(span, Agg(ops))
             segs = [s for s in strip_generics(path).split('::') if s]
             enums = self.mir.enums
@@ -622,7 +622,7 @@ class Engine:
             return Agg(ops)
         raise Unsupported(f'rvalue {rv}')
 
-    def elided_captures(self, span, have, fr):
+    def elided_captures(self, span, have, fr, where=''):
         """rustc's MIR printer zips a closure's operands with the *names* of the captured variables, so when two captures are
         disjoint fields of one variable the later operands are not printed. Recover them soundly: a missing operand must be a
         local of the enclosing body that is assigned but never read in the printed text and has exactly the field's type."""
@@ -632,17 +632,21 @@ class Engine:
         ftys = {int(m.group(1)): m.group(2) for m in re.finditer(r'\((?:_1|\(\*_1\))\.(\d+): ([^;]*?)\)[;,\)\s]', body)}
         need = max(ftys) + 1 if ftys else 0
         if need <= have: return []
-        text = fr.fn.text; out = []
-        for k in range(have, need):
-            if k not in ftys: raise Unsupported(f'closure {span}: capture {k} elided by the MIR printer and its type is not recoverable')
-            cands = []
-            for n, ty in fr.fn.types.items():
-                if ty.strip() != ftys[k].strip(): continue
-                uses = len(re.findall(r'\b_%d\b' % n, text))
-                if uses == 2 and re.search(r'^\s+_%d = ' % n, text, re.M) and re.search(r'^\s+let (?:mut )?_%d: ' % n, text, re.M): cands.append(n)
-            if len(cands) != 1: raise Unsupported(f'closure {span}: capture {k} elided by the MIR printer; {len(cands)} candidate locals of type {ftys[k]}')
-            out.append(self.read_place(('local', cands[0]), fr))
-        return out
+        text = fr.fn.text
+        def dead(n): return len(re.findall(r'\b_%d\b' % n, text)) == 2 and re.search(r'^\s+let (?:mut )?_%d: ' % n, text, re.M)
+        # operands are evaluated in capture order just before the aggregate: the dead temporaries of that block, in statement order
+        m = re.search(r' bb(\d+)$', where or '')
+        cands = []
+        if m:
+            for stt in fr.fn.blocks[int(m.group(1))][0]:
+                if stt[0] == 'assign' and stt[1][0] == 'local' and dead(stt[1][1]): cands.append(stt[1][1])
+                if stt[0] == 'assign' and stt[2][0] == 'aggn' and stt[2][1] == '{closure@' + span + '}': break
+        missing = list(range(have, need))
+        if len(cands) != len(missing) or any(k not in ftys or fr.fn.types.get(n, '').strip() != ftys[k].strip() for k, n in zip(missing, cands)):
+            # not recoverable (e.g. a capture moved straight out of a field has no temporary): leave them uninitialised, so that
+            # executing a closure body that touches one is refused instead of guessed
+            return [None] * len(missing)
+        return [self.read_place(('local', n), fr) for n in cands]
 
     # ---- function execution (layered unrolling, guarded single store)
     def cfg_of(self, fn):
